@@ -504,6 +504,19 @@ struct Recorder
     }
 };
 
+// counts the evaluations of the real stepper (for the a-priori error brackets)
+template<class S>
+struct CountStepper
+{
+    S s;
+    long* n;
+    FieldStepperResult operator()(real_type step, OdeState const& state) const
+    {
+        ++*n;
+        return s(step, state);
+    }
+};
+
 template<class D>
 struct RecDriver
 {
@@ -738,13 +751,16 @@ struct RealRunner
         Real3 bnative{0, 0, 0};
         for (int i = 0; i < 3; ++i)
             bnative[i] = s.field.b_tesla[i] * units::tesla;
-        auto run = [&](auto&& stepper) {
-            using StepperT = std::decay_t<decltype(stepper)>;
+        long nstep = 0;
+        auto run = [&](auto&& real_stepper) {
+            using RealStepperT = std::decay_t<decltype(real_stepper)>;
+            using StepperT = CountStepper<RealStepperT>;
             using DriverT = FieldDriver<StepperT>;
+            StepperT stepper{std::forward<decltype(real_stepper)>(real_stepper), &nstep};
             // THE CODE UNDER TEST: the real propagator over the real driver and the real
             // ORANGE track view, seen through call recorders
             FieldPropagator<RecDriver<DriverT>, RecGeo> propagate(
-                RecDriver<DriverT>{DriverT{s.opts, std::forward<decltype(stepper)>(stepper)}, &rec},
+                RecDriver<DriverT>{DriverT{s.opts, std::move(stepper)}, &rec},
                 particle,
                 RecGeo{&geo, &rec});
             result = propagate(s.step);
@@ -879,7 +895,9 @@ struct RealRunner
         double pdrift = 0;
         for (double m : rec.mommag)
             pdrift = std::max(pdrift, std::fabs(m - p0) / p0);
-        double const pdrift_tol = std::max(1e-9, s.opts.epsilon_rel_max * std::max(1, nadv));
+        // every accepted integration step may be off by epsilon_rel_max (relative): a-priori bound
+        double const eps_n = s.opts.epsilon_rel_max * static_cast<double>(std::max<long>(1, nstep));
+        double const pdrift_tol = s.stepper == 2 ? 1e-9 : std::max(1e-9, eps_n);
 
         // ORACLE-DECIDED: analytic helix in a uniform field (closed form above)
         bool const uniform = s.field.type != 2;
@@ -900,14 +918,19 @@ struct RealRunner
                 h.eval(result.distance, xe, ue);
                 helix_on = true;
                 hres = dist3(pos1, xe);
-                // bracket: accepted truncation error per substep (epsilon_rel_max * substep,
-                // summed: <= epsilon_rel_max * distance) + intersection tolerance at the end
-                // point (scaled by arc/chord) + minimum step + bump + rounding of the position
+                // bracket (a-priori, from the CONFIGURED tolerances): every one of the n stepper
+                // evaluations may err by epsilon_rel_max relative to its step in position and
+                // relative to |p| in momentum; a momentum error made at path length s displaces
+                // the end point by at most (error) * (distance - s) along the field and changes the
+                // phase by at most (error) * |K| * (distance - s)  =>  position <= eps*dist*(1+2n),
+                // direction <= eps*n*(1+|K| dist); plus the intersection tolerance at the end point
+                // (scaled by arc/chord), the minimum step, the bump and rounding of the position.
+                // The exact helix stepper has no truncation error (its own tolerance 1e-10).
+                double eps_eff = s.stepper == 2 ? 1e-9 : eps_n;
                 double scale = std::max({1.0, norm3(pos0), norm3(pos1)});
-                htol = s.opts.epsilon_rel_max * result.distance + 2 * dint * last_ratio + 2 * minsub + bump
-                       + 1e-9 * scale;
+                htol = eps_eff * result.distance * 3 + 2 * dint * last_ratio + 2 * minsub + bump + 1e-9 * scale;
                 ares = std::acos(std::min(1.0, std::max(-1.0, dot3(unit3(dir1), ue))));
-                atol = s.opts.epsilon_rel_max * std::max(1, nadv)
+                atol = eps_eff * (1 + std::fabs(h.K) * result.distance)
                        + std::fabs(h.K) * (2 * dint * last_ratio + 2 * minsub + bump) + 1e-7;
             }
         }
@@ -959,7 +982,9 @@ struct RealRunner
                     {"ares", R(ares)}, {"atol", R(atol)}};
         // raw numbers for the human reader / replay (not used by the spec)
         r["raw"] = {{"step", s.step}, {"dist", result.distance}, {"gap", gap}, {"pdrift", pdrift},
-                    {"hres", hres}, {"htol", htol}, {"ares", ares}, {"atol", atol}, {"nadv", nadv}};
+                    {"hres", hres}, {"htol", htol}, {"ares", ares}, {"atol", atol}, {"nadv", nadv}, {"nstep", nstep}};
+        r["stepper"] = s.stepper == 0 ? "dp" : (s.stepper == 1 ? "rk4" : "zhelix");
+        r["field"] = s.field.type == 0 ? "uniform" : (s.field.type == 1 ? "uniformz" : "rzmap");
         out(r);
         return !out1;
     }
